@@ -351,6 +351,7 @@ func procMode(seed uint64, rounds int) {
 			_ = syscall.Kill(p, syscall.SIGKILL)
 		}
 	}
+	forcedShutdownRound(rd, dir, seed)
 	// the bystander is still running and complete; cancel it at the end
 	bj, _ := a.Detail(byID)
 	emit(map[string]interface{}{"kind": "bystander", "completed": bj != nil && bj.Completed, "procs": len(procsWithMark(byMark)), "expected": byCount,
@@ -374,4 +375,58 @@ func procChild(lines []string, settleMs int) {
 	}
 	defer os.RemoveAll(dir)
 	runChildTask(dir, lines, settleMs)
+}
+
+
+// forcedShutdownRound: a job ended by a forced shutdown (the application's context ends: SIGTERM). An earlier job of the same
+// pipeline has completed normally; the running job's tree contains an interrupt-ignoring detached child. When the application
+// has returned nothing of the job may be alive, within the kill timeout plus latency.
+func forcedShutdownRound(rd *renderer, dir string, seed uint64) {
+	defs := map[string]PipeDef{
+		"tree": {Concurrency: 2, Tasks: map[string]TaskDef{"t": {Script: []string{"VERIF_MARK={{.mark}} bash {{.file}}"}}}},
+	}
+	a, err := startApp(defs)
+	if err != nil {
+		emit(map[string]interface{}{"kind": "error", "what": err.Error()})
+		return
+	}
+	quick := filepath.Join(dir, "quick.sh")
+	_ = os.WriteFile(quick, []byte("true\n"), 0755)
+	tree := &Node{Kind: "par", Children: []*Node{{Kind: "sleep", IgnoreInt: true, Detach: true}, {Kind: "sleep"}}}
+	file := filepath.Join(dir, "forced.sh")
+	_ = os.WriteFile(file, []byte(rd.render(tree)+"\n"), 0755)
+	mark := fmt.Sprintf("f%d_%d", os.Getpid(), seed)
+	rec := map[string]interface{}{"kind": "proc", "round": -1, "pipeline": "forced_shutdown", "tree": tree, "mark": mark, "script": rd.render(tree)}
+	id1, _, _ := a.Schedule("tree", map[string]interface{}{"mark": mark + "Q", "file": quick})
+	a.WaitDone(id1, 10*time.Second)
+	_, st, msg := a.Schedule("tree", map[string]interface{}{"mark": mark, "file": file})
+	if st != 202 {
+		rec["ok"], rec["what"] = false, fmt.Sprintf("schedule: %d %s", st, msg)
+		emit(rec)
+		a.Stop()
+		return
+	}
+	before := settle(mark, 3*time.Second)
+	t0 := time.Now()
+	a.cancel() // both shutdown contexts of the application end: a forced shutdown
+	returned := false
+	select {
+	case <-a.done:
+		returned = true
+	case <-time.After(killTimeout + 4*time.Second):
+	}
+	report := time.Since(t0)
+	time.Sleep(100 * time.Millisecond)
+	soon := procsWithMark(mark)
+	rec["procs_before"], rec["reported"], rec["report_ms"], rec["alive_100ms_after_report"] = before, returned, report.Milliseconds(), len(soon)
+	ok := returned && len(soon) == 0 && report <= killTimeout+1500*time.Millisecond
+	if !ok {
+		rec["what"] = fmt.Sprintf("forced shutdown: application returned=%v after %d ms, %d processes of the running job alive 100 ms later", returned, report.Milliseconds(), len(soon))
+	}
+	rec["ok"] = ok
+	emit(rec)
+	for _, p := range procsWithMark(mark) {
+		_ = syscall.Kill(p, syscall.SIGKILL)
+	}
+	_ = os.RemoveAll(a.Dir)
 }
